@@ -3,9 +3,15 @@ C32 — push subscribers (blockchain/push.go): the per-subscriber task loop of `
 (`addSubscriber` → `check2ResumePush`), node restart (`Push.init`), as a deterministic transition
 function over inputs, emitting the externally visible events.  Core Lean only.
 
-The data source is abstract: a post covers the sequence numbers `last+1 .. last+n`, where
-`1 ≤ n ≤ min(maxSeq, latest-last)` (`n` is cut by the payload size limit; the cut is an input).
-Subscriptions whose payload may be empty for a range (tx-receipt / EVM filters) are not modelled.
+The data source is abstract: one pass of the loop covers the sequence numbers `last+1 .. last+n`, where
+`n ≤ min(maxSeq, latest-last)` (`n` is cut by the payload size limit; the cut is an input).
+* block / header / tx-result subscriptions: the payload is never empty and `n ≥ 1`;
+* tx-receipt / EVM-event subscriptions (a contract filter): the range may hold NO matching data
+  (`empty`); then nothing is posted and `lastProcessedseq` moves on IN MEMORY ONLY (no
+  `setLastPushSeq`) — the `.skip a b` event.  `n = 0` is possible there (first block of the range larger
+  than the size limit: `updateSeq = startSeq-1`, the loop does not advance).
+Between the acknowledgement (`PostData` returned nil) and the record (`_ = setLastPushSeq`, error ignored)
+three things can happen (`After`): the record is written, the store write fails, the node crashes.
 -/
 namespace C32
 
@@ -23,28 +29,42 @@ structure Task where
   registered : Bool := false  -- a subscription record for this name exists in the store
   deriving Repr, DecidableEq
 
+/-- what follows an acknowledged post. -/
+inductive After where
+  | record      -- setLastPushSeq succeeded
+  | storeFail   -- setLastPushSeq returned an error (ignored by the code): the loop goes on in memory
+  | crash       -- the node died between PostData and setLastPushSeq and is started again
+  deriving Repr, DecidableEq
+
 inductive In where
-  | seqUpdate (latest : Int) (cut : Nat) (postOk : Bool)
-      -- the task consumes one notification; `latest` = LoadBlockLastSequence now; if it posts, the
-      -- payload is cut to `cut` entries (at least one) and the subscriber answers `postOk`
+  | seqUpdate (latest : Int) (cut : Nat) (empty : Bool) (postOk : Bool) (after : After)
+      -- the task consumes one notification; `latest` = LoadBlockLastSequence now; the range is cut to
+      -- `cut` entries; `empty`: it holds no matching data (filter subscriptions); else the payload is
+      -- posted, the subscriber answers `postOk`, and `after` says what happens to the record
   | tick                    -- runChan wake-up
   | subscribe (resume : Int)  -- addSubscriber for this name (resume ≥ 1: start after that sequence; else none)
-  | restart                 -- node restart: a new Push over the same store
+  | restart                 -- node restart (graceful or crash): a new Push over the same store
   deriving Repr
 
 inductive Ev where
-  | post (a b : Int) (ok : Bool)   -- payload for sequences a..b was posted; acknowledged iff ok
-  | persisted (v : Int)            -- setLastPushSeq(v)
+  | post (a b : Int) (ok : Bool)   -- payload covering sequences a..b was posted; acknowledged iff ok
+  | persisted (v : Int)            -- setLastPushSeq(v) written
   | deactivated                    -- three consecutive failures: task removed, status not-active persisted
   | started                        -- a task goroutine was (re)started for the subscriber
+  | skip (a b : Int)               -- sequences a..b scanned, no matching data: cursor moved in memory only
+  | stalled                        -- the first block of the range exceeds the size limit: nothing posted, cursor unchanged
   deriving Repr, DecidableEq
 
 /-- a new task goroutine: `getLastPushSeq`, counters zero. -/
 def spawn (t : Task) : Task :=
   { t with last := t.persisted, fails := 0, sleep := 0, running := true }
 
+/-- `Push.init` over the store: only subscriptions persisted as active get a task. -/
+def reboot (t : Task) : Task × List Ev :=
+  if t.active then (spawn t, [.started]) else ({ t with running := false }, [])
+
 def step (c : Cfg) (t : Task) : In → Task × List Ev
-  | .seqUpdate latest cut ok =>
+  | .seqUpdate latest cut empty ok after =>
     if !t.running then (t, []) else
     -- "if postFail2Sleep > 0 { if AddInt32(-1) > 0 { wait; continue } }"
     if t.sleep > 1 then ({ t with sleep := t.sleep - 1 }, []) else
@@ -53,11 +73,20 @@ def step (c : Cfg) (t : Task) : In → Task × List Ev
     else if t.last ≤ 0 then ({ t with last := latest }, [])       -- no resume point: start from the newest
     else
       let count := min (c.maxSeq : Int) (latest - t.last)
-      let n : Int := max 1 (min count (cut : Int))
       let a := t.last + 1
+      if empty then
+        -- data == nil: "continueFailCount = 0; lastProcessedseq = updateSeq", nothing recorded
+        let n : Int := min count (cut : Int)
+        if n ≤ 0 then ({ t with fails := 0 }, [.stalled])
+        else ({ t with last := t.last + n, fails := 0 }, [.skip a (t.last + n)])
+      else
+      let n : Int := max 1 (min count (cut : Int))
       let b := t.last + n
       if ok then
-        ({ t with last := b, fails := 0, persisted := b }, [.post a b true, .persisted b])
+        match after with
+        | .record => ({ t with last := b, fails := 0, persisted := b }, [.post a b true, .persisted b])
+        | .storeFail => ({ t with last := b, fails := 0 }, [.post a b true])
+        | .crash => ((reboot t).1, .post a b true :: (reboot t).2)
       else if t.fails + 1 ≥ 3 then
         ({ t with fails := t.fails + 1, running := false, active := false }, [.post a b false, .deactivated])
       else
@@ -74,8 +103,7 @@ def step (c : Cfg) (t : Task) : In → Task × List Ev
       let t := if resume ≥ 1 then { t with persisted := resume } else t
       (spawn { t with active := true, registered := true },
         if resume ≥ 1 then [.persisted resume, .started] else [.started])
-  | .restart =>
-    if t.active then (spawn t, [.started]) else ({ t with running := false }, [])
+  | .restart => reboot t
 
 def run (c : Cfg) (t : Task) : List In → Task × List Ev
   | [] => (t, [])
@@ -84,37 +112,60 @@ def run (c : Cfg) (t : Task) : List In → Task × List Ev
     let (t'', es) := run c t' is
     (t'', e ++ es)
 
+/-- histories in which every acknowledged post gets its record (no store failure, no crash in the
+window between acknowledgement and record). -/
+def In.noLoss : In → Bool
+  | .seqUpdate _ _ _ _ .record => true
+  | .seqUpdate _ _ _ _ _ => false
+  | _ => true
+
 /-! ### the specification: an acceptor over event traces, written from the property text -/
 
 structure Spec where
   p : Int := -1                 -- last sequence recorded as delivered (resume point); < 1: none yet
+  q : Int := -1                 -- cursor of the running task: end of the last acknowledged or skipped range
   fails : Nat := 0              -- consecutive failed posts
   dead : Bool := true           -- no task is delivering (before registration / after deactivation)
-  pending : Option Int := none  -- an acknowledged post whose record must come next
+  pending : Option Int := none  -- an acknowledged post whose record may come next
   mustDeact : Bool := false     -- the third consecutive failure must be followed by deactivation
   anyPost : Bool := false       -- some post was seen
   deriving Repr, DecidableEq
 
-def accept (c : Cfg) (s : Spec) : Ev → Option Spec
+/-- `strict = true`: every acknowledgement must be followed at once by its record (the reading of the
+property in which an acknowledged range is never delivered again).  `strict = false`: the record may be
+lost (store failure, crash); then the task falls back to the older record when it starts again. -/
+def accept (c : Cfg) (strict : Bool) (s : Spec) : Ev → Option Spec
   | .post a b ok =>
-    if s.dead || s.pending.isSome || s.mustDeact then none
+    if s.dead || s.mustDeact || (strict && s.pending.isSome) then none
     else if !(1 ≤ a ∧ a ≤ b ∧ b - a + 1 ≤ (c.maxSeq : Int)) then none
-    else if s.p ≥ 1 ∧ a ≠ s.p + 1 then none          -- without gaps and without repeats from the resume point
-    else if ok then some { s with fails := 0, pending := some b, anyPost := true }
-    else if s.fails + 1 ≥ 3 then some { s with fails := s.fails + 1, mustDeact := true, anyPost := true }
-    else some { s with fails := s.fails + 1, anyPost := true }
+    else if s.q ≥ 1 ∧ a ≠ s.q + 1 then none          -- right after the cursor: no gap, no repeat
+    else if ok then some { s with fails := 0, pending := some b, q := b, anyPost := true }
+    else if s.fails + 1 ≥ 3 then some { s with fails := s.fails + 1, pending := none, mustDeact := true, anyPost := true }
+    else some { s with fails := s.fails + 1, pending := none, anyPost := true }
+  | .skip a b =>
+    if s.dead || s.mustDeact || (strict && s.pending.isSome) then none
+    else if !(1 ≤ a ∧ a ≤ b ∧ b - a + 1 ≤ (c.maxSeq : Int)) then none
+    else if s.q ≥ 1 ∧ a ≠ s.q + 1 then none
+    else some { s with fails := 0, pending := none, q := b }
+  | .stalled =>
+    if s.dead || s.mustDeact || (strict && s.pending.isSome) then none
+    else some { s with fails := 0, pending := none }
   | .persisted v =>
+    if s.mustDeact then none else
     match s.pending with
     | some b => if v = b then some { s with p := b, pending := none } else none   -- recorded only after the ack
     | none => if s.dead && !s.anyPost && s.p < 1 && v ≥ 1 then some { s with p := v } else none  -- registration with a resume point
-  | .deactivated => if s.mustDeact then some { s with mustDeact := false, dead := true, fails := 0 } else none
-  | .started => if s.pending.isSome || s.mustDeact then none else some { s with dead := false, fails := 0 }
+  | .deactivated =>   -- follows the third refused post at once (no acknowledgement is outstanding)
+    if s.mustDeact && s.pending.isNone then some { s with mustDeact := false, dead := true, fails := 0 } else none
+  | .started =>
+    if s.mustDeact || (strict && s.pending.isSome) then none
+    else some { s with dead := false, fails := 0, pending := none, q := s.p }   -- a new task starts from the record
 
-def acceptAll (c : Cfg) (s : Spec) : List Ev → Option Spec
+def acceptAll (c : Cfg) (strict : Bool) (s : Spec) : List Ev → Option Spec
   | [] => some s
-  | e :: es => match accept c s e with
+  | e :: es => match accept c strict s e with
     | none => none
-    | some s' => acceptAll c s' es
+    | some s' => acceptAll c strict s' es
 
 /-- the sequence the specification currently regards as the last delivered one. -/
 def eff (s : Spec) : Int := match s.pending with | some b => b | none => s.p
@@ -124,5 +175,11 @@ def acks : List Ev → List (Int × Int)
   | [] => []
   | .post a b true :: es => (a, b) :: acks es
   | _ :: es => acks es
+
+/-- no `.skip` in the trace (block / header / tx-result subscriptions). -/
+def noSkip : List Ev → Bool
+  | [] => true
+  | .skip _ _ :: _ => false
+  | _ :: es => noSkip es
 
 end C32
